@@ -177,12 +177,57 @@ def cmdTypos (args : List String) : String :=
     | _, _ => "bad-type"
   | _ => "bad-request"
 
+/-! ### literals (C19) -/
+
+def showCharVal : Literal.CharVal → String
+  | .ok c => s!"chr {c.toNat}"
+  | .badEscape c => s!"chr-bad-escape {c.toNat}"
+  | .invalid => "chr-invalid"
+
+/-- `lit <hex of source text>`: scan the first token (normal mode) and evaluate it as the
+parser does.  Answer: `<kind> <value> scandiags=<n> parsediags=<m>` -/
+def cmdLit (args : List String) : String :=
+  match args with
+  | [hex] =>
+    match stringOfHex hex with
+    | none => "invalid-utf8"
+    | some src =>
+      match Scanner.scan ⟨true, false⟩ ⟨1, 1⟩ 0 src.toList with
+      | none => "out-of-fuel"
+      | some r =>
+        match r.segs with
+        | [] => "no-token"
+        | sg :: _ =>
+          let nd := r.diags.length
+          let inner := (sg.body.drop 1).dropLast
+          match sg.tok.type with
+          | .STRING =>
+            let (v, e) := Literal.parseStringImpl Generated.parseStringEscapes inner
+            s!"str {hexOfString (String.ofList v)} scandiags={nd} parsediags={e}"
+          | .CHAR => s!"{showCharVal (Literal.parseCharImpl Generated.parseCharEscapes inner)} scandiags={nd}"
+          | .INT =>
+            match Literal.parseIntImpl sg.body with
+            | some v => s!"int {v} scandiags={nd} parsediags=0"
+            | none => s!"int-range scandiags={nd} parsediags=1"
+          | .FLOAT => s!"float scandiags={nd}"
+          | .ILLEGAL => s!"illegal scandiags={nd}"
+          | _ => s!"other scandiags={nd}"
+  | _ => "bad-request"
+
+/-- `flt <intdigits> <fracdigits> <bits>`: is `bits` the correctly rounded double? -/
+def cmdFlt (args : List String) : String :=
+  match args with
+  | [i, f, b] => b2s (LiteralSpec.isNearestDouble i.toList f.toList b.toNat!)
+  | _ => "bad-request"
+
 def dispatch (line : String) : String :=
   match (line.splitOn " ").filter (· ≠ "") with
   | "scan" :: args => cmdScan args
   | "tokcmp" :: args => cmdTokcmp args
   | "trie" :: args => cmdTrie args
   | "types" :: args => cmdTypes args
+  | "lit" :: args => cmdLit args
+  | "flt" :: args => cmdFlt args
   | "typos" :: args => cmdTypos args
   | _ => "bad-request"
 
